@@ -676,6 +676,18 @@ func (m *Machine) sliceOp(fr *frame, x *ssa.Slice) Value {
 		if lo == nil && hi == nil {
 			return b
 		}
+		a := m.matBytes(b)
+		l, h := int64(0), int64(len(a))
+		if lo != nil {
+			l = m.toInt(lo)
+		}
+		if hi != nil {
+			h = m.toInt(hi)
+		}
+		if l < 0 || h < l || int(h) > len(a) {
+			panic(goPanic{msg: "slice bounds out of range"})
+		}
+		return a[l:h]
 	}
 	m.unsupported("slice of %T", base)
 	return nil
